@@ -190,13 +190,13 @@ def _aux_build_run(name, std, cxx="g++", extra=("-O1", "-fsanitize=address", "-D
     log = exe + ".log"
     if not os.path.exists(exe):
         cmd = [cxx, "-std=c++" + std, "-w"] + list(extra) + ["-I" + B.include_dir(),
-                                                              os.path.join(AUX, name + ".cpp"), "-o", exe + ".tmp"]
+                                                              os.path.join(AUX, name + ".cpp"), "-o", "%s.tmp.%d" % (exe, os.getpid())]
         p = subprocess.run(cmd, stdout=subprocess.PIPE, stderr=subprocess.STDOUT, text=True)
         with open(log, "w") as f:
             f.write(" ".join(cmd) + "\n" + p.stdout)
         if p.returncode != 0:
             return False, p.stdout, None, ""
-        os.replace(exe + ".tmp", exe)
+        os.replace("%s.tmp.%d" % (exe, os.getpid()), exe)
     rc, out, err = D.run_proc([exe], timeout=600)
     return True, "", rc, out
 
